@@ -428,6 +428,14 @@ class ApiRig:
         return r, self.now_ticks() - t0
 
     def close(self) -> None:
+        # the scenario is over: the client is shut down the way an application would (bounded; whatever it does is the
+        # subject of C15 - here it matters because other client objects in the process must not notice)
+        try:
+            if self.at is not None and not self.loop.is_closed():
+                asyncio.set_event_loop(self.loop)
+                self.run(self.at.shutdown(), max_ticks=10 * 1024)
+        except Exception:  # noqa: BLE001
+            pass
         for t in asyncio.all_tasks(self.loop):
             t.cancel()
         try:
